@@ -493,17 +493,21 @@ func c07ReadOnlySweep(payloads map[string]func() (any, func() []byte), name stri
 	before := string(enc())
 	c07ROCount = 0
 	seen := map[string]bool{}
-	var walk func(v reflect.Value, path string, depth int)
-	defer func() {
-		if !readonly {
-			return
-		}
-	}()
-	walk = func(v reflect.Value, path string, depth int) {
+	// the twin: a second, MUTABLE payload with the same shape but different contents (an extra entry in every map and
+	// slice); it supplies the mutable other operand of two-operand mutators (ro.MoveTo(twin), ro.MoveAndAppendTo(twin)),
+	// which must panic without changing EITHER side
+	root2, enc2 := mk()
+	c07Perturb(reflect.ValueOf(root2), 0, map[string]bool{}, "")
+	before2 := string(enc2())
+	var walk func(v, w reflect.Value, path string, depth int)
+	walk = func(v, w reflect.Value, path string, depth int) {
 		if depth > 9 {
 			return
 		}
 		ty := v.Type()
+		if w.IsValid() && w.Type() != ty {
+			w = reflect.Value{}
+		}
 		for i := 0; i < ty.NumMethod(); i++ {
 			m := ty.Method(i)
 			mt := m.Type
@@ -567,6 +571,31 @@ func c07ReadOnlySweep(payloads map[string]func() (any, func() []byte), name stri
 				} else if !panicked {
 					out = append(out, [2]string{"readonly-mutator-did-not-panic:" + ty.Name() + "." + m.Name, fmt.Sprintf("%s: %s.%s on a read-only value did not panic", name, path, m.Name)})
 				}
+				if (m.Name == "MoveTo" || m.Name == "MoveAndAppendTo") && w.IsValid() {
+					// the same mutator with a MUTABLE destination: it empties its (read-only) receiver, so it must panic - and
+					// the destination must be what it was
+					c07ROCount++
+					panicked2 := false
+					func() {
+						defer func() {
+							if r := recover(); r != nil {
+								panicked2 = true
+							}
+						}()
+						v.Method(i).Call([]reflect.Value{w})
+					}()
+					after, after2 := string(enc()), string(enc2())
+					switch {
+					case after != before:
+						out = append(out, [2]string{"readonly-mutated:" + ty.Name() + "." + m.Name, fmt.Sprintf("%s: %s.%s(mutable destination) on a read-only value changed the payload", name, path, m.Name)})
+						before = after
+					case after2 != before2:
+						out = append(out, [2]string{"readonly-rejected-mutator-changed-its-destination:" + ty.Name() + "." + m.Name, fmt.Sprintf("%s: %s.%s(mutable destination) on a read-only value panicked=%v but the destination changed", name, path, m.Name, panicked2)})
+						before2 = after2
+					case !panicked2:
+						out = append(out, [2]string{"readonly-mutator-did-not-panic:" + ty.Name() + "." + m.Name, fmt.Sprintf("%s: %s.%s(mutable destination) on a read-only value did not panic", name, path, m.Name)})
+					}
+				}
 			case mt.NumIn() == 1 && mt.NumOut() == 1 && mt.Out(0).Kind() == reflect.Struct && mt.Out(0).PkgPath() != "" && strings.Contains(mt.Out(0).PkgPath(), "/pdata/") && mt.Out(0).NumMethod() > 0:
 				// getter returning another wrapper
 				var child reflect.Value
@@ -585,7 +614,14 @@ func c07ReadOnlySweep(payloads map[string]func() (any, func() []byte), name stri
 					key := child.Type().String() + "@" + path + "." + m.Name
 					if !seen[key] {
 						seen[key] = true
-						walk(child, path+"."+m.Name+"()", depth+1)
+						var child2 reflect.Value
+						if w.IsValid() {
+							func() {
+								defer func() { _ = recover() }()
+								child2 = w.Method(i).Call(nil)[0]
+							}()
+						}
+						walk(child, child2, path+"."+m.Name+"()", depth+1)
 					}
 				}
 			case m.Name == "At" && mt.NumIn() == 2 && mt.NumOut() == 1:
@@ -600,18 +636,84 @@ func c07ReadOnlySweep(payloads map[string]func() (any, func() []byte), name stri
 						key := fmt.Sprintf("%s@%s.At(%d)", child.Type().String(), path, idx)
 						if !seen[key] {
 							seen[key] = true
-							walk(child, fmt.Sprintf("%s.At(%d)", path, idx), depth+1)
+							var child2 reflect.Value
+							if w.IsValid() {
+								func() {
+									defer func() { _ = recover() }()
+									child2 = w.Method(i).Call([]reflect.Value{reflect.ValueOf(idx)})[0]
+								}()
+							}
+							walk(child, child2, fmt.Sprintf("%s.At(%d)", path, idx), depth+1)
 						}
 					}
 				}
 			}
 		}
 	}
-	walk(reflect.ValueOf(root), name, 0)
+	walk(reflect.ValueOf(root), reflect.ValueOf(root2), name, 0)
 	// pass 2: the same walk on the read-only payload, now calling every mutator
 	readonly = true
 	seen = map[string]bool{}
 	reflect.ValueOf(root).MethodByName("MarkReadOnly").Call(nil)
-	walk(reflect.ValueOf(root), name, 0)
+	walk(reflect.ValueOf(root), reflect.ValueOf(root2), name, 0)
 	return out
+}
+
+// c07Perturb gives every map and slice reachable from v one more entry (twin payload of the read-only sweep)
+func c07Perturb(v reflect.Value, depth int, seen map[string]bool, path string) {
+	if depth > 9 {
+		return
+	}
+	ty := v.Type()
+	n := 0
+	if _, ok := ty.MethodByName("Len"); ok {
+		func() {
+			defer func() { _ = recover() }()
+			n = int(v.MethodByName("Len").Call(nil)[0].Int())
+		}()
+	}
+	for i := 0; i < ty.NumMethod(); i++ {
+		m := ty.Method(i)
+		mt := m.Type
+		switch {
+		case m.Name == "At" && mt.NumIn() == 2 && mt.NumOut() == 1:
+			for idx := 0; idx < n; idx++ {
+				var child reflect.Value
+				func() {
+					defer func() { _ = recover() }()
+					child = v.Method(i).Call([]reflect.Value{reflect.ValueOf(idx)})[0]
+				}()
+				if child.IsValid() && child.Kind() == reflect.Struct && child.NumMethod() > 0 {
+					c07Perturb(child, depth+1, seen, fmt.Sprintf("%s.At(%d)", path, idx))
+				}
+			}
+		case mt.NumIn() == 1 && mt.NumOut() == 1 && mt.Out(0).Kind() == reflect.Struct && strings.Contains(mt.Out(0).PkgPath(), "/pdata/") && mt.Out(0).NumMethod() > 0 &&
+			!strings.HasPrefix(m.Name, "Append") && !strings.HasPrefix(m.Name, "Set") && !strings.HasPrefix(m.Name, "Put") && !strings.HasPrefix(m.Name, "New"):
+			key := mt.Out(0).String() + "@" + path + "." + m.Name
+			if seen[key] {
+				continue
+			}
+			seen[key] = true
+			var child reflect.Value
+			func() {
+				defer func() { _ = recover() }()
+				child = v.Method(i).Call(nil)[0]
+			}()
+			if child.IsValid() {
+				c07Perturb(child, depth+1, seen, path+"."+m.Name+"()")
+			}
+		}
+	}
+	func() {
+		defer func() { _ = recover() }()
+		if pm := v.MethodByName("PutStr"); pm.IsValid() && pm.Type().NumIn() == 2 {
+			pm.Call([]reflect.Value{reflect.ValueOf("zz-twin"), reflect.ValueOf("x")})
+		}
+	}()
+	func() {
+		defer func() { _ = recover() }()
+		if am := v.MethodByName("AppendEmpty"); am.IsValid() && am.Type().NumIn() == 0 {
+			am.Call(nil)
+		}
+	}()
 }
